@@ -103,11 +103,12 @@ Kinds == <<
   \* words
   "word_to_num", "word_to_str", "word_kwlike", "word_long", "word_reserved", "word_utf8", "lastword_to_num",
   "lastword_dup", "lastword_array_neg", "lastword_array_huge", "lastword_array_zero", "lastword_array_open",
+  "word_early",
   \* options
   "bad_opt", "empty_opt", "open_opt", "bad_iface", "open_iface",
   \* comments and odd bytes
   "open_comment", "open_comment_after", "close_comment", "line_comment", "nul", "utf8", "bad_utf8",
-  "ctrl", "cr", "hash", "hash_include", "rawstr_open", "lone_quote", "lone_dquote", "backslash",
+  "ctrl", "cr", "hash", "hash_include", "rawstr_open", "rawstr_noparen", "lone_quote", "lone_dquote", "backslash",
   "deep_brace", "deep_paren", "deep_bracket", "deep_angle",
   \* whole statement
   "dup", "del", "eof_after_kw", "eof_mid", "eof_before_end" >>
@@ -175,6 +176,9 @@ Mut(k, s) ==
        [] k = "word_long" -> ReplaceTok(s, w1, <<LongWord>>)
        [] k = "word_reserved" -> IF w1 # 0 /\ s[w1] # "class" THEN ReplaceTok(s, w1, <<"class">>) ELSE s
        [] k = "word_utf8" -> IF w1 # 0 THEN ReplaceTok(s, w1, <<s[w1] \o "%C3%A9">>) ELSE s
+       \* the first argument word and the token after it moved right behind the first number: "{ 0 , 1 in 10 }" -> "{ 0 in 10 , 1 }"
+       [] k = "word_early" -> IF num1 # 0 /\ w1 > num1 + 1 /\ w1 < n
+                              THEN SubSeq(s, 1, num1) \o <<s[w1], s[w1 + 1]>> \o SubSeq(s, num1 + 1, w1 - 1) \o SubSeq(s, w1 + 2, n) ELSE s
        [] k = "lastword_to_num" -> IF wL # w1 THEN ReplaceTok(s, wL, <<"42">>) ELSE s
        [] k = "lastword_dup" -> IF wL # 0 THEN InsertAfter(s, wL, <<",", s[wL]>>) ELSE s
        [] k = "lastword_array_neg" -> IF wL # 0 /\ IsKw(s) THEN InsertAfter(s, wL, <<"[", "-1", "]">>) ELSE s
@@ -198,6 +202,8 @@ Mut(k, s) ==
        [] k = "hash" -> IF n > 0 THEN InsertAfter(s, 1, <<"#">>) ELSE s
        [] k = "hash_include" -> <<"#include", "\"nofile\"", NL>> \o s
        [] k = "rawstr_open" -> IF n > 0 THEN InsertAfter(s, 1, <<"R\"x(">>) ELSE s
+       \* a raw string prefix whose delimiter is never opened by a parenthesis on the line
+       [] k = "rawstr_noparen" -> IF n > 0 THEN InsertAfter(s, 1, <<"R\"doc">>) ELSE s
        [] k = "lone_quote" -> IF n > 0 THEN InsertAfter(s, 1, <<"'">>) ELSE s
        [] k = "lone_dquote" -> IF n > 0 THEN InsertAfter(s, 1, <<"\"">>) ELSE s
        [] k = "backslash" -> IF n > 0 THEN InsertAfter(s, 1, <<"\\">>) ELSE s
